@@ -142,6 +142,11 @@ func ValidateODSSize(path string, eds *rsmt2d.ExtendedDataSquare) error {
 	if err != nil {
 		return fmt.Errorf("opening file: %w", err)
 	}
+	defer func() {
+		if closeErr := ods.Close(); closeErr != nil {
+			log.Warnw("closing ODS file after size validation", "err", closeErr)
+		}
+	}()
 
 	shares, err := filledSharesAmount(eds)
 	if err != nil {
@@ -173,7 +178,8 @@ func OpenODS(path string) (*ODS, error) {
 
 	h, err := readHeader(f)
 	if err != nil {
-		return nil, err
+		// don't leak the file descriptor of a file with a corrupted or truncated header
+		return nil, errors.Join(err, f.Close())
 	}
 
 	return &ODS{
